@@ -216,3 +216,311 @@ Theorem C01_ex_content :
 Proof. exact (@ex_content). Qed.
 Print Assumptions C01_ex_content.
 
+(* ------------------------------------------------------------------------------------------------------------------ *)
+Require Import WnV.Model.Spec WnV.Model.Tables WnV.Model.Query WnV.Model.Core.
+Require Import WnV.Proofs.Compose WnV.Proofs.ComposeSamples.
+Local Open Scope Z_scope.
+Local Open Scope string_scope.
+
+(* ==== the composition, inside Coq: document -> rows -> API.  [conv d] reads a database of the add model as a database of the query model (through the common wire format).  For a resource with one new, non-extension lexicon L added to ANY database d (fk_ok d suffices: fk_ok_wf_db) and a Wordnet w restricted to the new lexicon: synsets(), words() and senses() list exactly the local Synset / LexicalEntry / Sense elements of L, in document order, with the document's ids, parts of speech and forms (lemma first, then the further forms in document order with id and script), and every sense navigates to the word and synset the document says *)
+Theorem C01_K2_synsets :
+  forall (d : Rel.db) (r : val) (nt : A.normtable) (d' : Rel.db) (L : val) (w : Wordnet),
+         A.add_lexical_resource d r nt = R.Ok d' ->
+         A.vreq r "lexicons" = R.Ok (VList [L]) ->
+         new_lexicon d L = true ->
+         wf_db d = true ->
+         let lexid := R.next_rowid (R.get_table d "lexicons") in
+         wn_lexicon_ids w = [lexid] ->
+         Forall2
+           (fun (y : Synset) (ss : val) =>
+            ss_id y = doc_text (A.vgetk ss "id") /\
+            ss_pos y = doc_otext (A.vgetk ss "partOfSpeech") /\
+            ss_lexid y = lexid /\ ss_wordnet y = w) (Wordnet_synsets (conv d') w None None None)
+           (A._local_synsets (A._synsets L)).
+Proof. exact (@K2_synsets). Qed.
+Print Assumptions C01_K2_synsets.
+
+Theorem C01_K2_synset_ids :
+  forall (d : Rel.db) (r : val) (nt : A.normtable) (d' : Rel.db) (L : val) (w : Wordnet),
+         A.add_lexical_resource d r nt = R.Ok d' ->
+         A.vreq r "lexicons" = R.Ok (VList [L]) ->
+         new_lexicon d L = true ->
+         wf_db d = true ->
+         wn_lexicon_ids w = [R.next_rowid (R.get_table d "lexicons")] ->
+         map ss_id (Wordnet_synsets (conv d') w None None None) =
+         map (fun ss : val => doc_text (A.vgetk ss "id")) (A._local_synsets (A._synsets L)) /\
+         map ss_pos (Wordnet_synsets (conv d') w None None None) =
+         map (fun ss : val => doc_otext (A.vgetk ss "partOfSpeech"))
+           (A._local_synsets (A._synsets L)).
+Proof. exact (@K2_synset_ids). Qed.
+Print Assumptions C01_K2_synset_ids.
+
+Theorem C01_K3_words :
+  forall (d : Rel.db) (r : val) (nt : A.normtable) (d' : Rel.db) (L : val) (w : Wordnet),
+         A.add_lexical_resource d r nt = R.Ok d' ->
+         A.vreq r "lexicons" = R.Ok (VList [L]) ->
+         new_lexicon d L = true ->
+         wf_db d = true ->
+         wf_lex L = true ->
+         let lexid := R.next_rowid (R.get_table d "lexicons") in
+         wn_lexicon_ids w = [lexid] ->
+         Forall2
+           (fun (x : Word) (e : val) =>
+            wd_id x = sid e /\
+            wd_pos x = doc_pos e /\
+            wd_lexid x = lexid /\
+            wd_wordnet x = w /\
+            map (fun q : q_form => (qf_form q, qf_id q, qf_script q)) (wd_forms x) = doc_forms e)
+           (Wordnet_words (conv d') w None None) (A._local_entries (A._entries L)).
+Proof. exact (@K3_words). Qed.
+Print Assumptions C01_K3_words.
+
+Theorem C01_K3_word_ids :
+  forall (d : Rel.db) (r : val) (nt : A.normtable) (d' : Rel.db) (L : val) (w : Wordnet),
+         A.add_lexical_resource d r nt = R.Ok d' ->
+         A.vreq r "lexicons" = R.Ok (VList [L]) ->
+         new_lexicon d L = true ->
+         wf_db d = true ->
+         wf_lex L = true ->
+         wn_lexicon_ids w = [R.next_rowid (R.get_table d "lexicons")] ->
+         map
+           (fun x : Word =>
+            (wd_id x, wd_pos x,
+             map (fun q : q_form => (qf_form q, qf_id q, qf_script q)) (wd_forms x)))
+           (Wordnet_words (conv d') w None None) =
+         map (fun e : val => (sid e, doc_pos e, doc_forms e)) (A._local_entries (A._entries L)).
+Proof. exact (@K3_word_ids). Qed.
+Print Assumptions C01_K3_word_ids.
+
+Theorem C01_K4_senses :
+  forall (d : Rel.db) (r : val) (nt : A.normtable) (d' : Rel.db) (L : val) (w : Wordnet),
+         A.add_lexical_resource d r nt = R.Ok d' ->
+         A.vreq r "lexicons" = R.Ok (VList [L]) ->
+         new_lexicon d L = true ->
+         wf_db d = true ->
+         wf_lex L = true ->
+         let lexid := R.next_rowid (R.get_table d "lexicons") in
+         let T := conv d' in
+         wn_lexicon_ids w = [lexid] ->
+         wn_default_mode w = false ->
+         Forall2
+           (fun (sn : Sense) (es : val * val) =>
+            sn_id sn = doc_text (A.vgetk (snd es) "id") /\
+            sn_entry_id sn = sid (fst es) /\
+            sn_synset_id sn = doc_text (A.vgetk (snd es) "synset") /\
+            sn_lexid sn = lexid /\
+            sn_wordnet sn = w /\
+            (exists x : Word,
+               Sense_word T sn = Ok x /\
+               wd_id x = sid (fst es) /\
+               wd_pos x = doc_pos (fst es) /\
+               wd_lexid x = lexid /\
+               wd_wordnet x = w /\
+               (exists x' : Word,
+                  In x' (Wordnet_words T w None None) /\
+                  wd__id x' = wd__id x /\ wd_id x' = sid (fst es))) /\
+            (exists y : Synset,
+               Sense_synset T sn = Ok y /\
+               ss_id y = doc_text (A.vgetk (snd es) "synset") /\
+               ss_lexid y = lexid /\ ss_wordnet y = w /\ In y (Wordnet_synsets T w None None None)))
+           (Wordnet_senses T w None None) (doc_senses L).
+Proof. exact (@K4_senses). Qed.
+Print Assumptions C01_K4_senses.
+
+Theorem C01_K4_sense_ids :
+  forall (d : Rel.db) (r : val) (nt : A.normtable) (d' : Rel.db) (L : val) (w : Wordnet),
+         A.add_lexical_resource d r nt = R.Ok d' ->
+         A.vreq r "lexicons" = R.Ok (VList [L]) ->
+         new_lexicon d L = true ->
+         wf_db d = true ->
+         wf_lex L = true ->
+         wn_lexicon_ids w = [R.next_rowid (R.get_table d "lexicons")] ->
+         wn_default_mode w = false ->
+         map (fun sn : Sense => (sn_id sn, sn_entry_id sn, sn_synset_id sn))
+           (Wordnet_senses (conv d') w None None) =
+         map
+           (fun es : val * val =>
+            (doc_text (A.vgetk (snd es) "id"), sid (fst es), doc_text (A.vgetk (snd es) "synset")))
+           (doc_senses L).
+Proof. exact (@K4_sense_ids). Qed.
+Print Assumptions C01_K4_sense_ids.
+
+Theorem C01_single_new_lexicon :
+  forall (d : Rel.db) (r : val) (nt : A.normtable) (d' : Rel.db) (L : val),
+         A.add_lexical_resource d r nt = R.Ok d' ->
+         A.vreq r "lexicons" = R.Ok (VList [L]) ->
+         new_lexicon d L = true -> A.add_one_lexicon nt L d = R.Ok d'.
+Proof. exact (@single_new_lexicon). Qed.
+Print Assumptions C01_single_new_lexicon.
+
+Theorem C01_fk_ok_wf_db :
+  forall d : Rel.db, AP.fk_ok d = true -> wf_db d = true.
+Proof. exact (@fk_ok_wf_db). Qed.
+Print Assumptions C01_fk_ok_wf_db.
+
+(* ---- the bridge: the typed tables of conv d' are those of conv d followed by the typed rows of the document elements *)
+Theorem C01_K1_synsets :
+  forall (nt : A.normtable) (L : val) (d d' : Rel.db),
+         A.add_one_lexicon nt L d = R.Ok d' ->
+         let lexid := R.next_rowid (R.get_table d "lexicons") in
+         t_synsets (conv d') =
+         (t_synsets (conv d) ++
+          map (fun kx : Z * val => typed_synset (R.CInt (fst kx) :: AC.synset_row d' lexid (snd kx)))
+            (A.enumerate_from (R.next_rowid (R.get_table d "synsets"))
+               (A._local_synsets (A._synsets L))))%list.
+Proof. exact (@K1_synsets). Qed.
+Print Assumptions C01_K1_synsets.
+
+Theorem C01_K1_entries :
+  forall (nt : A.normtable) (L : val) (d d' : Rel.db),
+         A.add_one_lexicon nt L d = R.Ok d' ->
+         let lexid := R.next_rowid (R.get_table d "lexicons") in
+         t_entries (conv d') =
+         (t_entries (conv d) ++
+          map (fun kx : Z * val => typed_entry (R.CInt (fst kx) :: AC.entry_row lexid (snd kx)))
+            (A.enumerate_from (R.next_rowid (R.get_table d "entries"))
+               (A._local_entries (A._entries L))))%list.
+Proof. exact (@K1_entries). Qed.
+Print Assumptions C01_K1_entries.
+
+Theorem C01_K1_forms :
+  forall (nt : A.normtable) (L : val) (d d' : Rel.db),
+         A.add_one_lexicon nt L d = R.Ok d' ->
+         vtruthy (A.vgetk L "extends") = false ->
+         wf_lex L = true ->
+         t_forms (conv d') =
+         (t_forms (conv d) ++
+          concat
+            (map snd
+               (mk_items nt d d' (R.next_rowid (R.get_table d "forms"))
+                  (A.enumerate_from (R.next_rowid (R.get_table d "entries"))
+                     (A._local_entries (A._entries L))))))%list.
+Proof. exact (@K1_forms). Qed.
+Print Assumptions C01_K1_forms.
+
+Theorem C01_K1_senses :
+  forall (nt : A.normtable) (L : val) (d d' : Rel.db),
+         A.add_one_lexicon nt L d = R.Ok d' ->
+         vtruthy (A.vgetk L "extends") = false ->
+         wf_lex L = true ->
+         t_senses (conv d') =
+         (t_senses (conv d) ++
+          map (mkS L d d')
+            (A.enumerate_from (R.next_rowid (R.get_table d "senses"))
+               (sense_items_from (R.next_rowid (R.get_table d "entries"))
+                  (A._local_entries (A._entries L)))))%list.
+Proof. exact (@K1_senses). Qed.
+Print Assumptions C01_K1_senses.
+
+Theorem C01_table_rows_conv :
+  forall (t : string) (d : R.db),
+         table_rows (S_ t) (sx_list (R.sx_of_db d)) = map conv_row (R.get_table d t).
+Proof. exact (@table_rows_conv). Qed.
+Print Assumptions C01_table_rows_conv.
+
+(* ---- each hypothesis is needed (witnesses: a dangling row in d; an entry with the empty id; an external entry carrying a local form) *)
+Theorem C01_wf_db_needed :
+  let L0 := cx_lex [] [cx_synset "y"] in
+         A.add_lexical_resource cx_d (AP.ex_resource [L0]) [] = R.Ok (cx_add cx_d L0) /\
+         new_lexicon cx_d L0 = true /\
+         wf_lex L0 = true /\
+         wf_db cx_d = false /\
+         map ss_id (Wordnet_synsets (conv (cx_add cx_d L0)) cx_w None None None) =
+         [S_ "ghost"; S_ "y"].
+Proof. exact (@wf_db_needed). Qed.
+Print Assumptions C01_wf_db_needed.
+
+Theorem C01_nonempty_ids_needed :
+  let L0 :=
+           cx_lex
+             [cx_entry "a" "cat" [("senses", VList [cx_sense "s1" "y"])];
+              cx_entry "" "dog" [("senses", VList [cx_sense "s2" "y"])]] [
+             cx_synset "y"] in
+         let T := conv (cx_add [] L0) in
+         A.add_lexical_resource [] (AP.ex_resource [L0]) [] = R.Ok (cx_add [] L0) /\
+         new_lexicon [] L0 = true /\
+         wf_db [] = true /\
+         wf_lex L0 = false /\
+         map
+           (fun sn : Sense =>
+            (sn_id sn, sn_entry_id sn, RES (Sense_word T sn) (fun x : Word => sx_of_str (wd_id x))))
+           (Wordnet_senses T cx_w None None) =
+         [(S_ "s1", S_ "a", sx_of_str (S_ "a")); (S_ "s2", [], sx_of_str (S_ "a"))].
+Proof. exact (@nonempty_ids_needed). Qed.
+Print Assumptions C01_nonempty_ids_needed.
+
+Theorem C01_inert_external_needed :
+  let L0 :=
+           cx_lex
+             [cx_entry "a" "cat" [];
+              AP.vd
+                [("id", A.vs "a"); ("external", VBool true);
+                 ("forms", VList [AP.vd [("writtenForm", A.vs "zzz")]])]] [] in
+         A.add_lexical_resource [] (AP.ex_resource [L0]) [] = R.Ok (cx_add [] L0) /\
+         new_lexicon [] L0 = true /\
+         wf_db [] = true /\
+         wf_lex L0 = false /\
+         map (fun x : Word => (wd_id x, map qf_form (wd_forms x)))
+           (Wordnet_words (conv (cx_add [] L0)) cx_w None None) = [(S_ "a", [S_ "cat"; S_ "zzz"])] /\
+         map
+           (fun e : val => map (fun t : str * option str * option str => fst (fst t)) (doc_forms e))
+           (A._local_entries (A._entries L0)) = [[S_ "cat"]].
+Proof. exact (@inert_external_needed). Qed.
+Print Assumptions C01_inert_external_needed.
+
+(* ---- non-vacuity on real data: on two run_add cases recorded from the implementation the model's add equals the implementation's tables, the hypotheses hold on the real input, and the conclusions hold on the implementation's own resulting database (by evaluation and through the theorems); conv agrees with the query model's own decoder on a recorded dump *)
+Theorem C01_case_11_0_model_agrees :
+  sx_agree_default (A.run_add add_case_11_0.input_0) add_case_11_0.expected_0 = true /\
+         A.add_lexical_resource (case_db add_case_11_0.input_0) (case_resource add_case_11_0.input_0)
+           (case_nt add_case_11_0.input_0) = R.Ok (case_db' add_case_11_0.expected_0).
+Proof. exact (@case_11_0_model_agrees). Qed.
+Print Assumptions C01_case_11_0_model_agrees.
+
+Theorem C01_case_11_0_hypotheses :
+  let inp := add_case_11_0.input_0 in
+         A.vreq (case_resource inp) "lexicons" = R.Ok (VList [case_lexicon inp]) /\
+         new_lexicon (case_db inp) (case_lexicon inp) = true /\
+         wf_db (case_db inp) = true /\
+         wf_lex (case_lexicon inp) = true /\ AP.fk_ok (case_db inp) = true.
+Proof. exact (@case_11_0_hypotheses). Qed.
+Print Assumptions C01_case_11_0_hypotheses.
+
+Theorem C01_case_11_0_K_by_theorems :
+  K_statement (conv (case_db' add_case_11_0.expected_0)) (case_w add_case_11_0.input_0)
+           (case_lexicon add_case_11_0.input_0).
+Proof. exact (@case_11_0_K_by_theorems). Qed.
+Print Assumptions C01_case_11_0_K_by_theorems.
+
+Theorem C01_case_12_10_model_agrees :
+  sx_agree_default (A.run_add add_case_12_10.input_10) add_case_12_10.expected_10 = true /\
+         A.add_lexical_resource (case_db add_case_12_10.input_10)
+           (case_resource add_case_12_10.input_10) (case_nt add_case_12_10.input_10) =
+         R.Ok (case_db' add_case_12_10.expected_10).
+Proof. exact (@case_12_10_model_agrees). Qed.
+Print Assumptions C01_case_12_10_model_agrees.
+
+Theorem C01_case_12_10_hypotheses :
+  let inp := add_case_12_10.input_10 in
+         A.vreq (case_resource inp) "lexicons" = R.Ok (VList [case_lexicon inp]) /\
+         new_lexicon (case_db inp) (case_lexicon inp) = true /\
+         wf_db (case_db inp) = true /\
+         wf_lex (case_lexicon inp) = true /\ AP.fk_ok (case_db inp) = true.
+Proof. exact (@case_12_10_hypotheses). Qed.
+Print Assumptions C01_case_12_10_hypotheses.
+
+Theorem C01_case_12_10_K_by_theorems :
+  K_statement (conv (case_db' add_case_12_10.expected_10)) (case_w add_case_12_10.input_10)
+           (case_lexicon add_case_12_10.input_10).
+Proof. exact (@case_12_10_K_by_theorems). Qed.
+Print Assumptions C01_case_12_10_K_by_theorems.
+
+Theorem C01_conv_on_core_case_1_3 :
+  let x := sx_nth 0 core_case_1_3.input_3 in
+         conv (R.db_of_sx x) = db_of_sx x /\
+         (Datatypes.length (t_entries (conv (R.db_of_sx x))),
+          Datatypes.length (t_synsets (conv (R.db_of_sx x))),
+          Datatypes.length (t_senses (conv (R.db_of_sx x)))) = (8%nat, 9%nat, 12%nat) /\
+         QueryFacts.db_ok (conv (R.db_of_sx x)) = true.
+Proof. exact (@conv_on_core_case_1_3). Qed.
+Print Assumptions C01_conv_on_core_case_1_3.
+
